@@ -42,6 +42,8 @@ func propC19(w *World, r *Report) {
 	RunUnsignedCountdown(w, r, fns)
 	RunDupAssign(w, r, fns)
 	checkStableSort(w, r, fns)
+	RunTokenSep(w, r, []string{"opentype/gtab/builder.ExplainGsub", "opentype/gtab/builder.ExplainGpos"})
+	r.Floor("tokensep", 12)
 	for _, a := range boundsAssumptions {
 		r.Assumes(a)
 	}
